@@ -266,7 +266,8 @@ func runOneReattach(c raCase) (sx.V, sx.V) {
 		go cl.Kill()
 	}
 	time.Sleep(50 * time.Millisecond)
-	return in, obs
+	// the protocol is part of the input: a cancelled net/rpc test server keeps serving the connections it has
+	return sx.L{sx.I(map[string]int{"netrpc": 0, "grpc": 1}[c.Proto]), in}, obs
 }
 
 func runReattach(o opts) error {
@@ -318,7 +319,7 @@ func runReattach(o opts) error {
 			parts := strings.SplitN(strings.TrimRight(string(lines), "\n"), "\t", 4)
 			if err != nil || len(parts) != 4 {
 				// the process serving the (test-mode) plugin did not survive the history
-				sink.Put(15, fmt.Sprintf("r%d", i), in, sx.L{sx.I(-99)}, c)
+				sink.Put(15, fmt.Sprintf("r%d", i), sx.L{sx.I(map[string]int{"netrpc": 0, "grpc": 1}[c.Proto]), in}, sx.L{sx.I(-99)}, c)
 				return
 			}
 			sink.PutRaw(15, fmt.Sprintf("r%d", i), parts[2], parts[3], c)
